@@ -147,7 +147,12 @@ impl VouchedTime {
         }
 
         Self::check_vouched_time(
-            local_time.assume_utc().unix_timestamp_nanos() / 1_000_000,
+            // Round towards negative infinity, so that times in the last
+            // millisecond before the epoch stay negative.
+            local_time
+                .assume_utc()
+                .unix_timestamp_nanos()
+                .div_euclid(1_000_000),
             base_time_ms,
         )
     }
